@@ -12,6 +12,8 @@ def run(tier, seed):
     emb = [("dyadic", 0), ("neg", 1)] if tier == "quick" else [("dyadic", 0), ("neg", 1), ("ulp", 2), ("int", 0)]
     run_pool(ctx, cfg, ["New", "Mul", "IMul", "Div", "IDiv", "Normalize", "NegRefused", "ForeignRefused", "Copy"], VIEW, emb,
              budget=60000 if tier == "quick" else 400000)
+    # HistogramCollection: normalize_bins (shares per bin), sum, copy
+    run_pool(ctx, "MC_HistPool_collq", ["New", "CollSum", "CollNormBins", "CollCopyFill", "Fill"], VIEW, [("dyadic", 0), ("ulp", 1)])
     nd_part(ctx, tier)
     ctx.assumptions = ["results whose denominator is a power of two are compared bit-exactly, others (division by 3, "
                        "normalisation) within 16 ulp", "scalars: python int/float, numpy float32/int16"]
